@@ -355,7 +355,8 @@ def serialise(rng, g, one_file=False, base_name=True, uri_rng=None, extras=True)
             n = g["nodes"][k]
             attrs = [("NodeId", nid_text(k, local))]
             bk = local[n["browse_ns"]]
-            bn = ("%d:%s" % (bk, n["browse"])) if (bk != 0 or rng.random() < 0.3) else n["browse"]
+            # a name that itself contains ':' is written with its prefix also in namespace 0 (unprefixed it would read as a prefixed name)
+            bn = ("%d:%s" % (bk, n["browse"])) if (bk != 0 or rng.random() < 0.3 or ":" in n["browse"]) else n["browse"]
             attrs.append(("BrowseName", bn))
             for a, v in n["attrs"].items():
                 attrs.append((a, idref(v) if isinstance(v, tuple) else v))
